@@ -39,6 +39,17 @@ F('expr__match', r'constexpr\s+bool\s+match\(match_options opts,\s*const Buffer&
   rules=[EMIT2, S(r'auto res = dfa_match\(sm, opts, source_point\{\}, buf\.begin\(\), buf\.end\(\), s\);', 'struct recognized_term res = regex__dfa_match(&expr_sm, opts, source_point__default(), buf_begin, buf_end);', name='R3:expr::sm'),
          S(r'auto end = buf\.begin\(\) \+ res\.len;', 'const char* end = buf_begin + res.len;', name='R7'), S(r'buf\.end\(\)', 'buf_end', min=1, name='R7:end')])
 
+def merge_rec_fragment(body):
+    import re as _re
+    ms = _re.findall(r'(?<![\w.])merge\(tr_to,\s*tr_from,\s*([^,()]+),\s*([^,()]+)\);', body)
+    if len(ms) != 1:
+        raise Exception('dfa_builder::merge: the recursive call was not found exactly once')
+    return '{ __CPROVER_assert((%s) == keep_end_state && (%s) == mark_from_as_unreachable, "merge/flags: the recursive merge of the transition targets runs in the same mode (keep_end_state, mark_from_as_unreachable) as the merge that caused it"); }' % ms[0]
+
+
+F('vx_merge_rec_flags', r'constexpr\s+void\s+merge\(size_t to,\s*size_t from,\s*bool keep_end_state = false,\s*bool mark_from_as_unreachable = false\)', 'void vx_merge_rec_flags(bool keep_end_state, bool mark_from_as_unreachable)',
+  scope=[r'class\s+dfa_builder\b'], fragment=merge_rec_fragment)
+
 SA = [r'class\s+dfa_size_analyzer\b']
 SAM = S(r'(?<![\w.>])size\b(?!\s*\()', 'self->size', min=0, name='R4:member size')
 SL = S(r'\bslice\{', '(struct utils__slice){', min=0, name='R16:slice')
@@ -80,3 +91,30 @@ UNIT.facts = [r'struct source_point\s*\{\s*size32_t line = 1;\s*size32_t column 
               r'constexpr const T& operator\[\]\(size_type idx\) const \{ return the_data\[idx\]; \}',
               r'using dfa = stdex::cvector<dfa_state<N>, N>;', PC.FACTS[-1], PC.FACTS[5]]
 apply_spec(UNIT.fns, os.path.join(HERE, '..', 'contracts', 'dfa.spec'))
+
+
+from vx import native as _N
+
+
+def _twin_sa_rep(o):
+    v = _N.trace_vals(o, 'h_sa_rep')
+    size = _N.to_int(v.get('a.size'), 0); st = _N.to_int(v.get('x.start'), 0); n_ = _N.to_int(v.get('x.n'), 2); n = _N.to_int(v.get('n'), 0)
+    return _N.TWIN_HEAD + """
+int main() {
+    regex::dfa_size_analyzer a;
+    // bring the analyser to the counterexample's size by allocating primaries (size is private; prim() adds 2)
+    uint32_t target = %uu; for (uint32_t k = 0; k + 2 <= target; k += 2) a.primary_char('x');
+    utils::slice s{ %uu, %uu }; uint32_t n = %uu;
+    utils::slice before = a.primary_char('y');           // before.start == size before
+    utils::slice r = a.rep(s, n);
+    utils::slice after = a.primary_char('z');            // after.start == size after rep
+    uint32_t grown = after.start - (before.start + 2);
+    uint32_t want_n = (n == 0) ? s.n : s.n * n, want_grown = (n == 0) ? 0 : s.n * (n - 1);
+    std::printf("rep({%%u,%%u}, %%u) -> {%%u,%%u}, size grew by %%u; specified {%%u,%%u}, growth %%u\\n", s.start, s.n, n, r.start, r.n, grown, s.start, want_n, want_grown);
+    return (r.start == s.start && r.n == want_n && grown == want_grown) ? 0 : 1;
+}""" % (size, st, n_, n)
+
+
+for _f in UNIT.fns:
+    if _f.name == 'sa_rep':
+        _f.twin = _twin_sa_rep
